@@ -28,6 +28,39 @@ PROPS = {
     'C15': hp(['class', 'loc'], 'Lean: stored_path_safe, initiate_stores_local, postLoginTarget_local, local_is_same_origin, callback_redirect_is_local, logout_target; tie: class and Location fields; oracle: origin of every Location as a browser resolves it is the request origin, the provider, or the configured post-logout URI', extra_facts=['maxIncomingPathLength']),
     'C16': hp(['class', 'code', 'body', 'msg'], 'Lean: escape_safe, escape_entities, errPage_html, errPage_kinds, callback_error_body; tie: status, body kind and the rendered message of the request-derived error text; oracle: markers in every client-controlled field never appear unescaped in HTML, JSON bodies parse and carry the message as a string, anything else is text/plain'),
     'C17': hp(['class', 'code', 'jar', 'calls'], 'Lean: only_callback_5xx_partial (K1 named), bad_is_absent, unusable_redirects, heals, stored_uri_bounded; tie: class, code, jar; oracle: no panic, no 5xx unless the scripted provider misbehaved, login from the resulting jar succeeds and the next request is forwarded', extra_facts=['maxIncomingPathLength', 'maxCookieSize', 'absoluteSessionTimeoutSec'], crash_is_violation=True),
+    'C07': dict(
+        family='session', driver_family='handler', fields=['jar'], facts=['maxCookieSize', 'absoluteSessionTimeoutSec', 'mainCookieName', 'accessTokenCookie', 'refreshTokenCookie'],
+        trusted=['gzip+base64 is an abstract injective codec in the model (decompress (compress t) = t, compress t != ""); its real round trip is exercised by every run',
+                 'browser Set-Cookie semantics: replace by name, delete on Max-Age<=0 (harness jar)'],
+        rule='one case = one Save (or Clear) of a SessionData obtained through the exported SessionManager API, through a browser jar: histories of 1-10 requests x 0-4 writes x 1-2 saves per response; token lengths '
+             'empty / 1 / compressible / exactly at and +-4,8 bytes around k*2000 compressed for k=1..12 / 10-40 kB; contents: repeated byte, alphanumeric, arbitrary bytes, base64-of-gzip, base64-not-gzip, JWT-looking; '
+             'distinct = distinct (writes, observed jar view, line lengths); non-trivial = all',
+        assumptions=['main-cookie fields stay within the sizes the handler produces (state 36, nonce 44, verifier 43, e-mail <= 320, remembered URI <= 1024 bytes)'],
+        explanation='Lean: read_back (history-level refinement of a plain record of fields), read_back_from_empty, getSession_saved, getToken_setToken, fieldsOf_applyW, split_join; tie: complete jar view after every Save; oracle: reference record of last written values compared byte for byte with the getters of the next request',
+    ),
+    'C09': dict(
+        family='session', driver_family='handler', fields=['jar'], facts=['cookieStoreKeyArgs', 'securecookieMaxLen', 'minEncryptionKeyLength'],
+        extra_runs=[dict(family='handler', diff=False)],
+        trusted=['HMAC-SHA256 unforgeability enters as MacInj, AES-CTR as a stream cipher with unknown keystream: cryptographic strength is assumed, not proved',
+                 'gorilla/securecookie and gorilla/sessions are modelled at the framing level (b64(ts|b64(body)|mac(name|ts|b64(body))))'],
+        rule='one case = (i) one emitted cookie value analysed without the key (base64 layers, split, gob decoding attempt, decompression of base64 runs, search for every planted secret and 16-byte windows of long ones) in the '
+             'session-API histories and in every handler flow; (ii) one tamper trial on an authentic value (bit flip of the decoded value, truncation, extension, value of another cookie name, minted under a key differing in one '
+             'character, one character changed, empty, timestamp rewritten): the jar must read exactly as if that cookie were absent; distinct = distinct (kind, cookie, outcome); non-trivial = all',
+        assumptions=['the length of the compressed token is not hidden (stated in opaque_contents)'],
+        explanation='Lean: tamper_evident, frame_injective, foreign_rejected (under MacInj), decode_encode, opaque_contents; facts: block key passed to the cookie store; tie: tampered cookie predicted `bad` = absent; oracles: keyless extractor finds no planted secret, tampered value never read as session content',
+    ),
+    'C18': dict(
+        family='session', driver_family='handler', fields=['lines'],
+        facts=['maxCookieSize', 'maxIncomingPathLength', 'absoluteSessionTimeoutSec', 'mainCookieName', 'accessTokenCookie', 'refreshTokenCookie', 'optHttpOnly', 'optSameSiteLax', 'optPathRoot',
+               'optMaxAgeIsSessionTimeout', 'optSecureIncludesForceHTTPS', 'saveAssignsOptionsToAll', 'securecookieMaxLen', 'cookieStoreKeyArgs'],
+        extra_runs=[dict(family='handler', diff=False)],
+        trusted=['encoding/gob byte layout (DESIGN appendix B) - checked for equality on every line of every run', 'net/http Cookie.String attribute rendering'],
+        rule='one case = one Set-Cookie line: in the session-API histories the exact byte length of every line is compared with the Lean length arithmetic evaluated on the model\'s own payloads; in the handler flows '
+             '(login with tokens at chunk boundaries, request URIs of 10-2100 bytes, refresh to another size, logout, expiry, recovery) every line is checked for prefix, Path=/, HttpOnly, SameSite=Lax, no Domain, Secure under forceHTTPS, '
+             'Max-Age <= 86400 and length <= 4096; distinct = distinct (cookie name, length); non-trivial = all',
+        assumptions=['e-mail claim of at most 320 bytes (RFC 5321: 254); timestamps of ten digits (until 2286)'],
+        explanation='Lean: chunk_line_le_4096, whole_line_le_4096, main_line_le_4096, current_chunk_fits; facts: the sessions.Options literal and its assignment in Save; tie: exact line lengths; oracle: attributes and length of every raw Set-Cookie line',
+    ),
     'C02': dict(
         family='jwt', fields=['r'], crash_is_violation=True,
         facts=['supportedAlgs', 'hashAlgs', 'rsaAlgPrefixes', 'ecAlgPrefixes', 'skewFutureSec', 'skewPastSec', 'nbfTypeChecked', 'ecdsaSigLenExact'],
